@@ -22,7 +22,7 @@ Definition oobj_eqb (a b : option obj) : bool := opt_eqb obj_eqb a b.
 
 Inductive ccase :=
 | CProg (w : wf) (job : obj) (ref sf : option obj)
-| COpMerge (flatten : bool) (inputs : list tok) (out : tok)           (* ListMergeCombinator.combine *)
+| COpMerge (flatten : bool) (inputs : list tok) (out : option tok)    (* ListMergeCombinator.combine; None = ValueError *)
 | COpPick (p : pick) (t : tok) (out : option tok)                    (* *NonNullTransformer._transform *)
 | COpListToElement (t : tok) (out : option tok)
 | COpEmptyScatter (m : smethod) (inputs : list tok) (fires : bool) (out : tok).
@@ -32,7 +32,7 @@ Definition check_case (c : ccase) : bool :=
   | CProg w job ref sf =>
       let m := run_wf w job in
       oobj_eqb m ref && (oobj_eqb m sf || negb (oobj_eqb sf ref))
-  | COpMerge fl inputs out => tok_eqb (sf_list_merge fl inputs) out
+  | COpMerge fl inputs out => opt_eqb tok_eqb (sf_list_merge_opt fl inputs) out
   | COpPick p t out => opt_eqb tok_eqb (sf_pick p t) out
   | COpListToElement t out => opt_eqb tok_eqb (sf_list_to_element t) out
   | COpEmptyScatter m inputs fires out =>
